@@ -33,7 +33,7 @@ def check(prog, ctx):
         env_b = oracles.again(prog, env)
         if env_b is not None:
             r_b, exp_b = oracles.reference(prog, env_b)
-            viol += oracles.second(oracles.clauses(env_b, "C02.") + oracles.compare_with_reference(env_b, r_b, exp_b, "C02.propagation"))
+            viol += oracles.second(oracles.clauses(env_b, "C02.") + oracles.compare_with_reference(env_b, r_b, exp_b, "C02.propagation"), env_b, "C02.propagation")
             ctx.label("run-twice-on-one-scheduler")
     levels = max([len(v) for v in env.deliveries.values()] or [0])
     ctx.label("delivered", bool(env.deliveries))
